@@ -1,8 +1,8 @@
 ------------------------------ MODULE HistoryMC ------------------------------
 EXTENDS History, Json
-C12 == 1..12
+C12 == 1..14
 C8 == 1..8
-C22 == 1..26
+C22 == 1..33
 Init == InitWith("func")
 EmitScn == (Bound /\ Len(hist) = MaxLen) => PrintT(<<"SCN", ToJson([hist |-> hist])>>)
 =============================================================================
